@@ -167,6 +167,33 @@ CLAIMS = {
              'the arithmetic is compared with the code on random and extreme integers and all grid shapes up to the tier bound (T2).',
         design='8/C18',
         note=TB),
+    'C19': dict(
+        level='proof',
+        technique='Coq: proved meaning of the ray/fan checkers + kernel evaluation of the checker on the fans the running code computes (views in use; every origin of every area up to 7x7; regenerated each run) ; larger and shifted areas by the extracted checker (translation validation) ; cache/determinism monitor',
+        text='compute_ray is float trigonometry (libm sin/cos, 0.01 steps, banker\'s rounding): Coq has no model of it, so no theorem over ALL areas is possible and none is claimed. '
+             'Proved (Props/C19.v): ray_ok / fan_ok accept exactly the rays / fans the property describes (start at the origin cell, inside the area, no cell twice, '
+             'adjacent steps, last cell on the border; non-empty fan reaching every cell) -- iff, by induction on the ray; by KERNEL evaluation (vm_compute) that the fans '
+             'computed by the running code satisfy this for every view used by a shipped configuration and for every origin of every area up to 7x7 plus shifted areas '
+             '(Gen/Rays.v: 28 000+ rays, regenerated from /repo on every run, so the proof is re-done when the code changes); consequences: an unobstructed ray-traced '
+             'view shows everything, the agent cell is always lit, rays stay in the view (the contract C06 assumes).  Beyond 7x7 (quick: sampled origins of areas up to 12x12, '
+             '15x15, 7x31; thorough: ALL origins of all areas up to 11x11 and larger samples), shifted areas with ymin != xmin and compute_rays (360 degrees): the extracted '
+             'checker plus an independent python statement of the contract on every fan -- translation validation, not proof.  Determinism / caching: every fan cold, '
+             'cached, and again after a shuffled sequence of other queries and ray-traced visibility calls.',
+        design='8/C19', note=TB + ' The unbounded claim (all areas) is NOT proved: it rests on the sweep.'),
+    'C20': dict(
+        level='proof',
+        technique='Coq proof (specification of gym reset/step/wrapper/representation switches as exact compositions of the functional operations, for every random outcome; reachability invariant across all layers) + operation-sequence differential check on one stack of real objects',
+        text='Coq theorems (Props/C20.v) about the machine genv = (InnerEnv machine, state repr, observation repr) with operations at the inner, outer, gym and state-wrapper '
+             'layers: gym step(i) succeeds iff actions[i] exists (python indexing; outside [-n,n) IndexError and nothing changes), the current state s steps functionally to '
+             '(s\', r, t), the observation o of s\' is computed, and the result is (repr(o), r, t) with the machine at (s\', memo o) -- an iff over all random outcomes; '
+             'likewise reset (observation of the fresh state); the wrapper returns the state representation of the post-step state and passes the observation '
+             'representation through info; outer state / observation are exactly the representations of the inner ones; for every machine reachable by ANY mix of '
+             'operations an observation representation handed out represents an observation of the CURRENT inner state; representation switches install the named '
+             'representation and its space; outputs lie inside the advertised space (C15).  Tie: T2 on operation sequences over GymEnvironment / GymStateWrapper / OuterEnv / '
+             'GridWorld sharing one inner environment (all 21 shipped configurations, random compositions; reads in all patterns, repeated and mid-episode resets, '
+             'indices outside the space, switches incl. unknown names, missing representations), every output, exception class and the draw log compared; oracle per '
+             'operation: output = fresh conversion of the inner environment\'s current observation / state and inside the real gym space; registered gym ids vs hand-built twins.',
+        design='8/C20', note=TB + ' GymEnvironment.seed needs gym<=0.21 (seeding.create_seed); environments are seeded through inner_env.set_seed. render() is not modelled.'),
 }
 
 
